@@ -133,23 +133,23 @@ Definition awrite (r : arec) (d : cell) (st : status) (n : nat) (ok : bool) : na
   | _, _ => (0, r)
   end.
 
-(* ---- EvWrite ---- *)
+(* ---- EvWrite: (code, state); the state always advances (the diagnosis goes on after a violation) ---- *)
 Definition write_step (m : mst) (o : obj) (st : status) (n : nat) (ok : bool) (rs : reason) : nat * mst :=
   let d := iget (m_img m) o in
   let c := mk_cell st n ok in
   let same := cell_eqb d c && match o with OPlan => reason_eqb rs (m_reason m) | _ => true end in
   let img' := iset (m_img m) o c in
   let reason' := match o with OPlan => rs | _ => m_reason m end in
-  if mono_obj o && is_cf (c_st d) && negb (status_eqb st (c_st d)) then (9, m)               (* (e) *)
-  else if is_some (m_rel m) && negb same then (10, m)                                         (* (c) after release *)
-  else
+  let '(acode, acts') :=
     match o with
-    | OAct a =>
-        if cell_eqb d c then (0, {| m_img := img'; m_reason := reason'; m_acts := m_acts m; m_rel := m_rel m |})
-        else let (code, r') := awrite (aget (m_acts m) a) d st n ok in
-             (code, {| m_img := img'; m_reason := reason'; m_acts := aset (m_acts m) a r'; m_rel := m_rel m |})
-    | _ => (0, {| m_img := img'; m_reason := reason'; m_acts := m_acts m; m_rel := m_rel m |})
-    end.
+    | OAct a => if cell_eqb d c then (0, m_acts m)
+                else let (code, r') := awrite (aget (m_acts m) a) d st n ok in (code, aset (m_acts m) a r')
+    | _ => (0, m_acts m)
+    end in
+  (if mono_obj o && is_cf (c_st d) && negb (status_eqb st (c_st d)) then 9                   (* (e) *)
+   else if is_some (m_rel m) && negb same then 10                                             (* (c) after release *)
+   else acode,
+   {| m_img := img'; m_reason := reason'; m_acts := acts'; m_rel := m_rel m |}).
 
 (* ---- one monitor step: (code, state); code 0 = the property holds so far ---- *)
 Definition mstep_c (sh : shape) (m : mst) (e : event) : nat * mst :=
@@ -170,9 +170,11 @@ Definition mstep_c (sh : shape) (m : mst) (e : event) : nat * mst :=
       | None => (0, m)
       end
   | EvRelease fin =>
-      if negb (is_terminal (ist (m_img m) OPlan)) then (11, m)                                (* (c) *)
-      else if negb (image_agrees (all_objs sh) (m_img m) (m_reason m) fin) then (12, m)       (* (c) *)
-      else (0, {| m_img := m_img m; m_reason := m_reason m; m_acts := m_acts m; m_rel := Some fin |})
+      (if negb (is_terminal (ist (m_img m) OPlan)) then 11                                    (* (c) *)
+       else if negb (image_agrees (all_objs sh) (m_img m) (im_reason fin) fin) then 12        (* (c) some object *)
+       else if negb (reason_eqb (m_reason m) (im_reason fin)) then 15                         (* (c) the reason *)
+       else 0,
+       {| m_img := m_img m; m_reason := m_reason m; m_acts := m_acts m; m_rel := Some fin |})
   end.
 
 Definition mstep (sh : shape) (m : mst) (e : event) : option mst :=
@@ -193,15 +195,22 @@ Definition mon_persist (c : case) : bool :=
    5 attempt write is not "exactly the next one"   6 attempt write's lastok contradicts the outcome
    7 terminal write with something pending         8 terminal write changes the attempt record
    9 (e) durable regress of a block/sequence/sequence action      10 (c) durable change after the release
-   11 (c) release before the plan's terminal write 12 (c) released plan differs from the durable image
-   13 (c) re-read differs from the released plan   14 End without Start *)
-Fixpoint mfold_diag (sh : shape) (m : mst) (tr : list event) (i : nat) : list nat :=
+   11 (c) release before the plan's terminal write 12 (c) released plan differs from the durable image (an object)
+   13 (c) re-read differs from the released plan   14 End without Start
+   15 (c) released plan differs from the durable image in the failure reason only
+   The diagnosis goes on after a violation (the state advances) and lists up to 6 of them: [c1; i1; c2; i2; ...]. *)
+Fixpoint mfold_diag (sh : shape) (m : mst) (tr : list event) (i : nat) (fuel : nat) : list nat :=
   match tr with
-  | [] => [0]
+  | [] => []
   | e :: tr' => let (code, m') := mstep_c sh m e in
-                if Nat.eqb code 0 then mfold_diag sh m' tr' (S i) else [code; i]
+                if Nat.eqb code 0 then mfold_diag sh m' tr' (S i) fuel
+                else match fuel with
+                     | 0 => []
+                     | S f => code :: i :: mfold_diag sh m' tr' (S i) f
+                     end
   end.
-Definition mon_persist_diag (c : case) : list nat := mfold_diag (fst c) m0 (snd c) 0.
+Definition mon_persist_diag (c : case) : list nat :=
+  match mfold_diag (fst c) m0 (snd c) 0 6 with [] => [0] | l => l end.
 
 (* ---------------------------------------------------------------- (d) snapshots *)
 Definition snap_st (im : image) (o : obj) : option status := option_map oc_st (im_lookup im o).
@@ -251,6 +260,15 @@ Fixpoint wimg (tr : list event) (im : dimg) : dimg :=
   | _ :: tr' => wimg tr' im
   end.
 Definition image_after (tr : list event) : dimg := wimg tr [].
+
+(* the durable failure reason of the plan after a trace: the reason of its last plan write *)
+Fixpoint wreason (tr : list event) (r : reason) : reason :=
+  match tr with
+  | [] => r
+  | EvWrite OPlan _ _ _ rs :: tr' => wreason tr' rs
+  | _ :: tr' => wreason tr' r
+  end.
+Definition reason_after (tr : list event) : reason := wreason tr FRUnknown.
 
 (* the snapshots of a trace, in order (polls and the released plan) *)
 Fixpoint snaps (tr : list event) : list image :=
